@@ -303,7 +303,7 @@ def run_tie(prop, spec, tier, seed):
         ndfs += len(rs)
     nrand = 1200 if tier == "quick" else 30000
     lines = ["run %s seed %d pts" % (gen_config(rng, tier), rng.next() % (1 << 40)) for _ in range(nrand)]
-    ncrowd = 24 if tier == "quick" else 400
+    ncrowd = 12 if tier == "quick" else 400
     lines += ["run %s seed %d pts" % (gen_crowd(rng), rng.next() % (1 << 40)) for _ in range(ncrowd)]
     runs += schedtie.run_batch(binary, lines)
     executed = [r for r in runs if r.status is not None]
